@@ -132,6 +132,27 @@ EvalLeavesTheStoryAlone ==
         /\ H!FlowOf(r.m) = H!FlowOf(h.m)
         /\ r.others = h.others /\ r.cur = h.cur /\ r.slots = h.slots
 
+\* C11 at the design level: what the observers are told agrees with polling the variables around the continue.
+\* Every global whose value after a completed continue differs from its value before is in the set the watchers MUST be
+\* told about (with the value it has now - Told reads m.vars); a global that is in neither set has the value it had;
+\* must is part of may.  The sets are part of the machine, so the rewind of a look-ahead takes back what the look-ahead
+\* assigned and a look-ahead that is kept keeps it: "changes made only in discarded look-ahead are not reported until the
+\* continue that commits them" is then LookAheadIsInvisible (same variables) + this invariant (sets = differences).
+ObserversMatchPolling ==
+  H!CanContinue(h) =>
+    LET c == Cont(h) IN
+    /\ c.m.dirty \subseteq c.m.touched
+    /\ \A g \in DOMAIN c.m.vars :
+         /\ (g \notin DOMAIN h.m.vars \/ c.m.vars[g] # h.m.vars[g]) => g \in c.m.dirty
+         /\ g \notin c.m.touched => (g \in DOMAIN h.m.vars /\ c.m.vars[g] = h.m.vars[g])
+    \* a host assignment between continues tells the watchers of that variable at once, once, the value assigned - and only them
+    /\ \A g \in DOMAIN h.m.vars :
+         LET ho == H!Observe(h, "o1", g).h
+             nn == H!NotesAfterSet(ho, g, S!I(7)) IN
+         /\ nn.must = nn.may /\ nn.must = (<<"o1", g, S!I(7)>> :> 1)
+         /\ \A g2 \in DOMAIN h.m.vars \ {g} : H!NotesAfterSet(ho, g2, S!I(7)).may = <<>>
+         /\ H!Unobserve(ho, "o1", g).h.obs = h.obs /\ H!Reset(ho).h.obs = ho.obs
+
 ResetIsInitial == LET r == H!Reset(h).h IN r.m = S!Start /\ r.cur = H!DefaultFlow /\ r.others = <<>> /\ r.obs = h.obs /\ r.handler = h.handler
 
 RefusedIsNoOp ==
